@@ -234,8 +234,7 @@ func names(n int) []string {
 
 func invokeOnOff(sp *Spec, a *arena, ctx context.Context) callRes {
 	g := onoffpb.NewGroup(fakeOnOff{a}, names(sp.N)...)
-	g.ReadExecution = group.ExecutionStrategy(sp.Strat)
-	g.WriteExecution = group.ExecutionStrategy(sp.Strat)
+	g.ReadExecution, g.WriteExecution = readWrite(sp)
 	switch sp.Method {
 	case "Get":
 		res, err := g.GetOnOff(ctx, &traits.GetOnOffRequest{Name: "the-group"})
@@ -271,8 +270,7 @@ func (f fakeLight) PullBrightness(ctx context.Context, in *traits.PullBrightness
 
 func invokeLight(sp *Spec, a *arena, ctx context.Context) callRes {
 	g := lightpb.NewGroup(fakeLight{a}, names(sp.N)...)
-	g.ReadExecution = group.ExecutionStrategy(sp.Strat)
-	g.WriteExecution = group.ExecutionStrategy(sp.Strat)
+	g.ReadExecution, g.WriteExecution = readWrite(sp)
 	switch sp.Method {
 	case "Get":
 		res, err := g.GetBrightness(ctx, &traits.GetBrightnessRequest{Name: "the-group"})
@@ -292,4 +290,18 @@ func opaque(res proto.Message, isNil bool, err error) callRes {
 		return callRes{Shape: "opaque", Err: err}
 	}
 	return callRes{Shape: "opaque", Msg: res, Err: err}
+}
+
+// readWrite gives the strategy under test to the execution the method uses (reads: Get, Pull; writes: Update)
+// and a strategy with a different contract to the other one, so that a mix-up is observable.
+func readWrite(sp *Spec) (read, write group.ExecutionStrategy) {
+	s := group.ExecutionStrategy(sp.Strat)
+	other := group.ExecutionStrategyAll
+	if s == group.ExecutionStrategyAll || s == group.ExecutionStrategyUnspecified {
+		other = group.ExecutionStrategyRace
+	}
+	if sp.Method == "Update" {
+		return other, s
+	}
+	return s, other
 }
